@@ -81,6 +81,12 @@ def scorePrepared (sp : Scoring.SP α) (r : Pipe.Prepared α) : List (Scoring.GO
 def atomLabel (a : Pipe.PAtom α) : String :=
   Pipe.padR 3 a.name ++ Pipe.padL 4 (toString a.resNum) ++ Pipe.padL 2 a.chain ++ str (strip a.icode.toList)
 
+/-- separates the printed label from the residue number in a partner identity (a control character: no label contains it) -/
+def idSep : String := String.singleton (Char.ofNat 1)
+
+/-- the printed label of the partner an identity stands for -/
+def labelOfId (i : String) : String := String.ofList (i.toList.takeWhile fun c => c != Char.ofNat 1)
+
 /-- what identifies a determinant's partner for `Group.__eq__` / `Iterative.__eq__`: the printed label, and the residue number
     for a hetero group -/
 def partnerId (r : Pipe.Prepared α) (g : Nat) : String :=
@@ -88,7 +94,7 @@ def partnerId (r : Pipe.Prepared α) (g : Nat) : String :=
   | none => ""
   | some gr =>
     let a := r.atoms.getD gr.atom Pipe.PAtom.dflt
-    if a.het then gr.label ++ "#" ++ toString a.resNum else gr.label
+    if a.het then gr.label ++ idSep ++ toString a.resNum else gr.label
 
 def detsOf (r : Pipe.Prepared α) (ds : List (Scoring.Det α)) : List (Dets.Det α) :=
   ds.map fun d => ⟨partnerId r d.partner, ((r.groups[d.partner]?).map (·.label)).getD "", d.value⟩
@@ -126,11 +132,12 @@ def staticOf (r : Pipe.Prepared α) : Array (CoupleSearch.Static α) :=
     | none => ⟨"", ((0:Nat):α), false⟩
 
 /-- `find_non_covalently_coupled_groups` on a scored conformation -/
-def searchOf (cp : CoupleSearch.CP α) (r : Pipe.Prepared α) (outs : List (Scoring.GOut α)) : CoupleSearch.St α :=
-  CoupleSearch.identify cp (staticOf r) (grecsOf r outs)
+def searchOf (cp : CoupleSearch.CP α) (show_ : Bool) (r : Pipe.Prepared α) (outs : List (Scoring.GOut α)) : CoupleSearch.St α :=
+  let s := CoupleSearch.identify cp (staticOf r) (grecsOf r outs)
+  if show_ then CoupleSearch.display cp s else s
 
-def scoredOf (cp : CoupleSearch.CP α) (r : Pipe.Prepared α) (outs : List (Scoring.GOut α)) : List (Scored α) :=
-  let st := searchOf cp r outs
+def scoredOf (cp : CoupleSearch.CP α) (show_ : Bool) (r : Pipe.Prepared α) (outs : List (Scoring.GOut α)) : List (Scored α) :=
+  let st := searchOf cp show_ r outs
   ((r.groups.toList.zip outs).zipIdx).map fun gok =>
     let g := gok.1.1
     let o := gok.1.2
@@ -160,9 +167,9 @@ structure AvrGroup (α : Type) where
   acc : Dets.Acc α
 
 /-- `Group.add_determinant`: add to the first determinant towards an equal partner, else append `Determinant(partner, value)`
-    (its label is the partner's label; no interactions are swapped in this model, so that is the label the determinant carries) -/
+    (a fresh object: its label is the partner's own label, also when the display mode has relabelled the determinant it stems from) -/
 def addDetL : List (Dets.Det α) → Dets.Det α → List (Dets.Det α)
-  | [], d => [d]
+  | [], d => [{ d with label := labelOfId d.grp }]
   | x :: xs, d => if x.grp = d.grp then { x with value := x.value + d.value } :: xs else x :: addDetL xs d
 
 /-- `Group.__iadd__` -/
@@ -209,8 +216,8 @@ def run (P : Pipe.PP α) (sp : Scoring.SP α) (dec : Int → Nat → α) (po : P
   | .ok recs => if recs.isEmpty then .error .valueError else .ok (afterParse P sp dec o recs)
 
 /-- the average conformation of a run (`none` when the set-up of a conformation raised) -/
-def averageRun (cp : CoupleSearch.CP α) (outs : List (ConfOut α)) : Option (List (AvrGroup α)) :=
-  (outs.mapM fun (c : ConfOut α) => c.2.map fun ro => scoredOf cp ro.1 ro.2).map averageOf
+def averageRun (cp : CoupleSearch.CP α) (show_ : Bool) (outs : List (ConfOut α)) : Option (List (AvrGroup α)) :=
+  (outs.mapM fun (c : ConfOut α) => c.2.map fun ro => scoredOf cp show_ ro.1 ro.2).map averageOf
 end
 
 end Propka.Program
